@@ -587,7 +587,7 @@ func c09ArgClass(kind, arg string) string {
 		if len(t) > 1 && t[0] == '0' || strings.Contains(t, "_") || strings.ContainsAny(t, "xXbBoO") {
 			return kind + "/base-prefix-leading-zero-or-underscore"
 		}
-	case "identifier", "prefix", "identifier-ref", "key", "unique", "absolute-schema-nodeid", "descendant-schema-nodeid":
+	case "identifier", "prefix", "identifier-ref", "unique", "absolute-schema-nodeid", "descendant-schema-nodeid":
 		for i := 0; i < len(arg); i++ {
 			if arg[i] >= 0x80 {
 				return kind + "/non-ascii-letter"
